@@ -20,6 +20,7 @@ EXPLANATION = (
     "registered objects; depth/node limits come from the entity's own metadata. R5: every loop that "
     "feeds node/edge emission iterates a sorted() view of set-typed adjacencies. Truncation "
     "semantics and the derivation of the relation from source (C06-C08) are not decided."
+    ' R6: the project-wide graphs are rooted at every module/type/procedure, and file dependencies use the recursive closure; correlation order is shared with C06.R3.'
 )
 ASSUMPTIONS = ["graphviz's own output is out of scope", "adjacency containers are the attributes initialised as set()/{} in the node constructors"]
 
